@@ -291,7 +291,7 @@ def c09():
     return dict(
         id="C09", level="exploration", engine="tabmon+rtrsim",
         builds=[_tab_build(), _sim_build()],
-        runs=[_tab_run("pfx", 3200, 64000), _sim_run("reload", 600, 12000), _sim_run("conv", 1200, 24000), _sim_run("defect", 1080, 21600),
+        runs=[_tab_run("pfx", 3200, 64000), _tab_run("allocpfx", 160, 3200), _sim_run("reload", 600, 12000), _sim_run("conv", 1200, 24000), _sim_run("defect", 1080, 21600),
               _sim_run("stops", 400, 8000), _sim_run("expiry", 490, 9800)],
         floors={"c09/replay_vs_table_checks": T(150000, 3000000), "c09/table_free_checks": T(5000, 100000), "c09/reload_netdiff_checks": T(1000, 20000)},
         rule=(PFX_RULE + "Monitor: the installed pfx_update_fp maintains the replayed set S online: 'added' of a record already in S or "
@@ -299,7 +299,9 @@ def c09():
               "table, after pfx_table_free S must be empty. The same monitor runs inside rtrsim (real FSM thread vs scripted cache) where "
               "the operations are whole cache exchanges: successful deltas, failed deltas with rollback, atomic reloads with overlapping "
               "old/new sets (callbacks during a reload over a non-empty set must number exactly |old xor new|), failed reloads, expiry "
-              "purge, rtr_stop, table destruction; records of two other sources share the table. Distinct by history / trace hash."),
+              "purge, rtr_stop, table destruction; records of two other sources share the table. allocpfx: histories in which the k-th "
+              "allocation fails, for every k: an operation that fails and leaves the table unchanged must leave the replayed log "
+              "unchanged as well. Distinct by history / trace hash."),
         assumptions=TAB_ASSUME + SIM_ASSUME[:3],
     )
 
@@ -351,3 +353,64 @@ def c18():
 
 
 SPECS.update({"C18": c18})
+
+
+# ------------------------------------------------------------------------------ conc-based properties
+CONC_SRCS = ["conc.c", "common/sim_data.c", "common/sim_tr.c", "common/sim_cache.c", "common/sim_mon.c"]
+
+
+def _conc_build(cfg):
+    return dict(name="conc", config=cfg, harness=CONC_SRCS, wraps=WRAP_SIM)
+
+
+CONC_ASSUME = ["interleavings are those the OS scheduler produces under load on this machine plus what ThreadSanitizer infers from happens-before; "
+               "no systematic schedule enumeration", "glibc pthread_rwlock is the only synchronisation the tables use (TSan intercepts it)",
+               "only race reports with a frame in trie*.c / ht-spkitable.c / tommy* are verdicts; others are diagnostics"]
+
+
+def c16():
+    return dict(
+        id="C16", level="exploration", engine="conc", jobs=6,
+        builds=[_conc_build("plain"), _conc_build("tsan")],
+        runs=[dict(name="lin", bin="conc", config="plain", mode="lin", cases=T(160, 3200), args=["ops=2000"], chunks=16, timeout=1800),
+              dict(name="lin-tsan", bin="conc", config="tsan", mode="lin", cases=T(24, 320), args=["ops=500"], chunks=8, timeout=1800, tsan=True)],
+        floors={"c16/reads_overlapping_a_write": T(1000000, 20000000), "c16/overlapping_reads/validate": T(100000, 2000000),
+                "c16/overlapping_reads/enum-v4": T(10000, 200000), "c16/overlapping_reads/get_all": T(50000, 1000000)},
+        rule=("Each run: 4-12 reader threads and one writer on one pfx_table and one spki_table over universes of 64 nested prefix "
+              "records (3 sources) and 64 router keys (3 AS numbers x 4 SKIs), so that the model state is a pair of 64-bit masks. The "
+              "writer performs a seeded sequence of add / remove / remove-by-source on both tables and publishes started=k before and "
+              "completed=k after operation k (remove-by-source on the prefix table counts as two model steps, one per address family, "
+              "because the library purges the two tries under separate lock holds). Readers sample lo=completed before and hi=started "
+              "after each call (pfx_table_validate_r, for_each_ipv4/6_record, spki_table_get_all, spki_table_search_by_ski) and log "
+              "(query, lo, hi, state, result set). Offline checker: some step v in [lo,hi] must explain the answer (validation state and "
+              "reason set per RFC 6811, exact enumeration, exact key sets). TSan build of the same workload: reports are read from the "
+              "log, de-duplicated by (kind, innermost function < outermost table entry point) pairs; any report touching table code is a "
+              "violation. Non-trivial = a run with reads that overlapped a write; distinct by hash."),
+        assumptions=CONC_ASSUME,
+    )
+
+
+def c06():
+    return dict(
+        id="C06", level="exploration", engine="conc", jobs=3,
+        builds=[_conc_build("plain"), _conc_build("tsan")],
+        runs=[dict(name="reload", bin="conc", config="plain", mode="reload", cases=T(12, 160), args=["epochs=8", "records=1000", "readers=8"], chunks=12, timeout=1800),
+              dict(name="reload-big", bin="conc", config="plain", mode="reload", cases=T(2, 24), args=["epochs=6", "records=1024", "readers=14"], chunks=2, timeout=1800),
+              dict(name="reload-tsan", bin="conc", config="tsan", mode="reload", cases=T(3, 30), args=["epochs=4", "records=200", "readers=4"], chunks=3, timeout=1800, tsan=True)],
+        floors={"c06/observations_while_reload_in_flight": T(100000, 2000000), "c06/reloads_completed": T(100, 1500),
+                "c06/flip_query_observations": T(50000, 1000000), "c06/new_set_observations": T(10000, 200000)},
+        rule=("The real FSM thread (rtr_start) synchronises with a scripted cache that has restarted with a new session id and the next "
+              "of 5-9 pre-computed data sets (a common core + a random half of the remaining 1000 prefix records / 192 router keys) at "
+              "every poll: Serial Query -> Cache Reset -> Reset Query -> full response, i.e. a reload while the socket already holds "
+              "data; a static second source shares the tables. 4-14 reader threads spin on pfx_table_validate and spki_table_get_all "
+              "over 192 pre-computed queries; each observation is stamped with the epoch counter before and after the call (unequal -> "
+              "discarded; the counter advances when the new set goes on the wire). Oracle per table: the answer must equal the "
+              "pre-computed answer under the old or under the new set; a query with the same answer under both must never deviate "
+              "(this is what detects an empty or half-loaded table); per reader, after a new-only answer no old-only answer may follow "
+              "within the epoch. A run without observations inside a reload window is inconclusive. TSan build: same workload, smaller "
+              "data; table-code race reports are violations. Distinct by hash of the per-run observation counts."),
+        assumptions=CONC_ASSUME + SIM_ASSUME[:3],
+    )
+
+
+SPECS.update({"C16": c16, "C06": c06})
